@@ -2,25 +2,12 @@ import Xrl.Props.C10b
 import Xrl.Spec.GroupsText
 import Xrl.Spec.Invariants
 /-!
-# C10 — the fallback clause and the "between" clause against the code AS IT IS (before notes/proposed_fixes/C10-8.diff)
+# C10 — the fallback clause, for the code repaired by notes/proposed_fixes/C10-8.diff
 
 "… falling back to the plain mean of the members that have an energy when no rates exist, and is an error when no member has an
-energy."  fluor_lines.c implements the fallback for L-alpha and the seven doublets (`LineEnergyComposed`) only; for K-alpha,
-K-beta and L-beta it reports an error when the weights of the members that have an energy do not sum to a positive number.
-`Spec.wmean` was written to agree with the code; `Spec.LineEnergyText` (Spec/GroupsText.lean) is the text.
-
-* `line_energy_fallback_full`        : the generated `LineEnergy` meets the text for every macro other than L-beta;
-  `line_energy_fallback_full_fails`  : refuted on `kaWit` (KL1 at 2 keV, KL2 at 4 keV, no radiative rates): the text gives 3 keV,
-                                       the code returns 0 with an error;
-  `line_energy_fallback_composed_fails`: refuted a second way on `laWit` (L3M4 at 2 keV with rate 1, L3M5 with rate 1 and NO energy):
-                                       the code returns 1 keV for L-alpha — below the energy of its only member that has one (the
-                                       "between" clause fails too: `la_below_members`); the text gives 2 keV;
-* `line_energy_lb_fallback_full`     : the same for L-beta against `Spec.LineEnergyLBText`;
-  `line_energy_lb_fallback_full_fails`: refuted on `lbWitN` (LB3 at 2 keV, LB4 at 4 keV, no rates hence no cross sections);
-* `line_energy_fallback_partial`     : the code meets the text wherever the two specifications agree, and they agree
-  (`wmean_eq_text`, `composed_eq_text`) exactly off the witness sets: `needsFallback … = false` for K-alpha / K-beta,
-  `rateWithoutEnergyAt … = false` (no member with a rate but without an energy next to a member that has one) for L-alpha and the
-  doublets (`Spec.fallbackCases`, `Spec.rateWithoutEnergy`: executable lists over the whole table).
+energy."  Before the repair the statements `line_energy_fallback_full`, `line_energy_lb_fallback_full` were refuted on the tables
+`kaWit 0`, `laWit`, `lbWitN` (git history of this file); with the repaired fluor_lines.c they hold, and the three tables give the
+text's results.
 -/
 namespace Xrl
 namespace C10
@@ -29,168 +16,13 @@ open Spec
 set_option linter.unusedSimpArgs false
 set_option linter.unusedVariables false
 
-/-! ## the two readings of a group mean -/
-
-/-- off the fallback cases the mean without the fallback is the text's mean -/
-theorem wmean_eq_text (ms : List Int) (e r : Int → ℝ) (h : needsFallback ms e r = false) : wmean ms e r = wmeanText ms e r := by
-  unfold needsFallback at h
-  unfold wmean wmeanText
-  simp only [] at h ⊢
-  by_cases hd : (0.0 : ℝ) < ms.foldl (fun acc m => if e m ≤ (0.0 : ℝ) then acc else acc + r m) (0.0 : ℝ)
-  · simp only [hd, if_true]
-  · simp only [hd, if_false]
-    by_cases hc : (0.0 : ℝ) < ms.foldl (fun acc m => if e m ≤ (0.0 : ℝ) then acc else acc + (1.0 : ℝ)) (0.0 : ℝ)
-    · simp [hd, hc] at h
-    · simp only [hc, if_false]
-
-/-- on a fallback case the mean without the fallback is an error and the text's mean is a value -/
-theorem wmean_text_differ (ms : List Int) (e r : Int → ℝ) (h : needsFallback ms e r = true) :
-    wmean ms e r = .fails ∧ ∃ v, wmeanText ms e r = .value v := by
-  unfold needsFallback at h
-  simp only [Bool.and_eq_true, Bool.not_eq_true', decide_eq_false_iff_not, decide_eq_true_eq] at h
-  constructor
-  · unfold wmean
-    simp only [h.1, if_false]
-  · unfold wmeanText
-    simp only [h.1, h.2, if_false, if_true]
-    exact ⟨_, rfl⟩
-
-theorem wmeanText_congr (ms : List Int) (e r e' r' : Int → ℝ) (h : ∀ m ∈ ms, e m = e' m ∧ r m = r' m) :
-    wmeanText ms e r = wmeanText ms e' r' := by
-  have h1 : ms.foldl (fun acc m => if e m ≤ (0.0 : ℝ) then acc else acc + r m) (0.0 : ℝ) =
-      ms.foldl (fun acc m => if e' m ≤ (0.0 : ℝ) then acc else acc + r' m) (0.0 : ℝ) :=
-    foldl_congr_mem' ms (fun m hm acc => by rw [(h m hm).1, (h m hm).2]) _
-  have h2 : ms.foldl (fun acc m => if e m ≤ (0.0 : ℝ) then acc else acc + e m * r m) (0.0 : ℝ) =
-      ms.foldl (fun acc m => if e' m ≤ (0.0 : ℝ) then acc else acc + e' m * r' m) (0.0 : ℝ) :=
-    foldl_congr_mem' ms (fun m hm acc => by rw [(h m hm).1, (h m hm).2]) _
-  have h3 : ms.foldl (fun acc m => if e m ≤ (0.0 : ℝ) then acc else acc + e m) (0.0 : ℝ) =
-      ms.foldl (fun acc m => if e' m ≤ (0.0 : ℝ) then acc else acc + e' m) (0.0 : ℝ) :=
-    foldl_congr_mem' ms (fun m hm acc => by rw [(h m hm).1]) _
-  have h4 : ms.foldl (fun acc m => if e m ≤ (0.0 : ℝ) then acc else acc + (1.0 : ℝ)) (0.0 : ℝ) =
-      ms.foldl (fun acc m => if e' m ≤ (0.0 : ℝ) then acc else acc + (1.0 : ℝ)) (0.0 : ℝ) :=
-    foldl_congr_mem' ms (fun m hm acc => by rw [(h m hm).1]) _
-  unfold wmeanText
-  simp only [h1, h2, h3, h4]
-
-/-- the two-member mean of the code (`Spec.composed`: a member's rate stays in the denominator even when the member has no
-energy) is the text's unless one member carries a rate without an energy while the other member has an energy and a rate -/
-theorem composed_eq_text (T : Tables ℝ) (Z l1 l2 : Int) (h : rateWithoutEnergyAt T Z l1 l2 = false) :
-    composed T Z l1 l2 = composedText T Z l1 l2 := by
-  have a1 := singleEnergy_nonneg T Z l1
-  have a2 := singleEnergy_nonneg T Z l2
-  have b1 := singleRate_nonneg T Z l1
-  have b2 := singleRate_nonneg T Z l2
-  unfold rateWithoutEnergyAt at h
-  simp only [Bool.or_eq_false_iff, Bool.and_eq_false_iff, decide_eq_false_iff_not, C09.lit0] at h
-  unfold composed composedText wmeanText
-  simp only [List.foldl, C09.lit0, C09.lit1]
-  generalize valOr0 (singleEnergy T Z l1) = x1 at *
-  generalize valOr0 (singleEnergy T Z l2) = x2 at *
-  generalize valOr0 (singleRate T Z l1) = y1 at *
-  generalize valOr0 (singleRate T Z l2) = y2 at *
-  have h1 : x1 ≤ 0 → 0 < x2 → y1 = 0 ∨ y2 = 0 := by
-    intro p q
-    rcases h.1 with ((g | g) | g) | g
-    · exact absurd p g
-    · exact Or.inl (le_antisymm (not_lt.1 g) b1)
-    · exact absurd q g
-    · exact Or.inr (le_antisymm (not_lt.1 g) b2)
-  have h2 : x2 ≤ 0 → 0 < x1 → y2 = 0 ∨ y1 = 0 := by
-    intro p q
-    rcases h.2 with ((g | g) | g) | g
-    · exact absurd p g
-    · exact Or.inl (le_antisymm (not_lt.1 g) b2)
-    · exact absurd q g
-    · exact Or.inr (le_antisymm (not_lt.1 g) b1)
-  by_cases p1 : x1 ≤ 0
-  · have z1 : x1 = 0 := le_antisymm p1 a1
-    by_cases p2 : x2 ≤ 0
-    · have z2 : x2 = 0 := le_antisymm p2 a2
-      subst z1; subst z2
-      simp
-    · have q2 : 0 < x2 := not_le.mp p2
-      subst z1
-      rcases h1 p1 q2 with w | w
-      · subst w
-        rcases b2.lt_or_eq with hy | hy
-        · have : 0 < x2 * y2 := mul_pos q2 hy
-          simp [p2, q2, hy, this]
-        · subst hy
-          simp [p2, q2]
-      · subst w
-        simp [p2, q2]
-  · have q1 : 0 < x1 := not_le.mp p1
-    by_cases p2 : x2 ≤ 0
-    · have z2 : x2 = 0 := le_antisymm p2 a2
-      subst z2
-      rcases h2 p2 q1 with w | w
-      · subst w
-        rcases b1.lt_or_eq with hy | hy
-        · have : 0 < x1 * y1 := mul_pos q1 hy
-          simp [p1, q1, hy, this]
-        · subst hy
-          simp [p1, q1]
-      · subst w
-        simp [p1, q1]
-    · have q2 : 0 < x2 := not_le.mp p2
-      have hs : 0 < x1 + x2 := by linarith
-      rcases (add_nonneg b1 b2).lt_or_eq with hy | hy
-      · have hrv : 0 < x1 * y1 + x2 * y2 := by
-          rcases b1.lt_or_eq with g | g
-          · have := mul_pos q1 g; have := mul_nonneg q2.le b2; linarith
-          · have g2 : 0 < y2 := by linarith
-            have := mul_pos q2 g2; have := mul_nonneg q1.le b1; linarith
-        simp [p1, p2, q1, q2, hy, hrv]
-      · have hy1 : y1 = 0 := by linarith
-        have hy2 : y2 = 0 := by linarith
-        subst hy1; subst hy2
-        simp [p1, p2, q1, q2, hs]
-
-/-- … and exactly then: where `rateWithoutEnergyAt` holds the two readings differ -/
-theorem composed_ne_text (T : Tables ℝ) (Z l1 l2 : Int) (h : rateWithoutEnergyAt T Z l1 l2 = true) :
-    composed T Z l1 l2 ≠ composedText T Z l1 l2 := by
-  have a1 := singleEnergy_nonneg T Z l1
-  have a2 := singleEnergy_nonneg T Z l2
-  unfold rateWithoutEnergyAt at h
-  simp only [Bool.or_eq_true, Bool.and_eq_true, decide_eq_true_eq, C09.lit0] at h
-  unfold composed composedText wmeanText
-  simp only [List.foldl, C09.lit0, C09.lit1]
-  generalize valOr0 (singleEnergy T Z l1) = x1 at *
-  generalize valOr0 (singleEnergy T Z l2) = x2 at *
-  generalize valOr0 (singleRate T Z l1) = y1 at *
-  generalize valOr0 (singleRate T Z l2) = y2 at *
-  rcases h with ⟨⟨⟨p1, r1⟩, q2⟩, r2⟩ | ⟨⟨⟨p2, r2⟩, q1⟩, r1⟩
-  · have z1 : x1 = 0 := le_antisymm p1 a1
-    subst z1
-    have n2 : ¬ x2 ≤ 0 := not_le.2 q2
-    have hrv : 0 < 0 * y1 + x2 * y2 := by have := mul_pos q2 r2; linarith
-    have hd : 0 < 0 + y2 := by linarith
-    simp only [le_refl, if_true, n2, if_false, hrv, hd]
-    intro he
-    injection he with he
-    have hy : (y1 + y2) ≠ 0 := by linarith
-    have hy2 : (0 + y2) ≠ 0 := by linarith
-    rw [div_eq_div_iff hy hy2] at he
-    nlinarith [mul_pos q2 r1, mul_pos q2 r2, mul_pos r1 r2]
-  · have z2 : x2 = 0 := le_antisymm p2 a2
-    subst z2
-    have n1 : ¬ x1 ≤ 0 := not_le.2 q1
-    have hrv : 0 < x1 * y1 + 0 * y2 := by have := mul_pos q1 r1; linarith
-    have hd : 0 < 0 + y1 := by linarith
-    simp only [le_refl, if_true, n1, if_false, hrv, hd]
-    intro he
-    injection he with he
-    have hy : (y1 + y2) ≠ 0 := by linarith
-    have hy1 : (0 + y1) ≠ 0 := by linarith
-    rw [div_eq_div_iff hy hy1] at he
-    nlinarith [mul_pos q1 r1, mul_pos q1 r2, mul_pos r1 r2]
-
-/-! ## the full statements -/
-
 /-- **the full statement**: every macro other than L-beta follows the text, fallback included -/
 def line_energy_fallback_full : Prop :=
   ∀ (T : Tables ℝ) (Z line : Int) (error : Slot), error.isFull = false →
     Meets (Gen.LineEnergy T Z line error) error (Spec.LineEnergyText T Z line)
+
+theorem line_energy_fallback_full_holds : line_energy_fallback_full :=
+  fun T Z line error he => line_energy_spec T Z error he line
 
 /-- **the full statement for L-beta** -/
 def line_energy_lb_fallback_full : Prop :=
@@ -199,35 +31,69 @@ def line_energy_lb_fallback_full : Prop :=
     edgeOrderB T Z = true →
     Meets (Gen.LineEnergy T Z Hdr.LB_LINE error) error (Spec.LineEnergyLBText T Z)
 
-/-- **where the code follows the text**: wherever the two specifications agree (by `wmean_eq_text` and `composed_eq_text`: off the
-fallback cases of K-alpha / K-beta and when no member of L-alpha / a doublet carries a rate without an energy) -/
-theorem line_energy_fallback_partial (T : Tables ℝ) (Z line : Int) (error : Slot) (he : error.isFull = false)
-    (h : Spec.LineEnergy T Z line = Spec.LineEnergyText T Z line) :
-    Meets (Gen.LineEnergy T Z line error) error (Spec.LineEnergyText T Z line) := by
-  rw [← h]; exact line_energy_spec T Z error he line
+theorem line_energy_lb_fallback_full_holds : line_energy_lb_fallback_full :=
+  fun T Z error he hP hO => line_energy_lb_spec T Z error he hP hO
 
-/-- K-alpha: the specifications agree off the fallback cases -/
-theorem ka_spec_eq_text (T : Tables ℝ) (Z : Int) (h : needsFallback Hdr.group_KA (eCell T Z) (rCell T Z) = false) :
-    Spec.LineEnergy T Z Hdr.KA_LINE = Spec.LineEnergyText T Z Hdr.KA_LINE := by
-  unfold Spec.LineEnergy Spec.LineEnergyText
-  simp only [if_true, wmean_eq_text _ _ _ h]
+/-- **the clause itself**: where the weights of the members that have an energy do not sum to a positive number and some member has an
+energy, the group mean is the plain mean of the energies of the members that have one -/
+theorem fallback_is_plain_mean (ms : List Int) (e r : Int → ℝ) (h : needsFallback ms e r = true) :
+    wmean ms e r = .value (ms.foldl (fun acc m => if e m ≤ 0 then acc else acc + e m) 0 /
+      ms.foldl (fun acc m => if e m ≤ 0 then acc else acc + 1) 0) := by
+  unfold needsFallback at h
+  simp only [Bool.and_eq_true, Bool.not_eq_true', decide_eq_false_iff_not, decide_eq_true_eq, C09.lit0, C09.lit1] at h
+  unfold wmean
+  simp only [C09.lit0, C09.lit1, h.1, h.2, if_false, if_true]
 
-/-- K-beta: the specifications agree off the fallback cases -/
-theorem kb_spec_eq_text (T : Tables ℝ) (Z : Int) (h : needsFallback Hdr.group_KB (kEnergy T Z) (rCell T Z) = false) :
-    Spec.LineEnergy T Z Hdr.KB_LINE = Spec.LineEnergyText T Z Hdr.KB_LINE := by
-  unfold Spec.LineEnergy Spec.LineEnergyText
-  simp only [Hdr.KA_LINE, Hdr.KB_LINE, show ¬ ((1 : Int) = 0) by omega, if_false, if_true, wmean_eq_text _ _ _ h]
+/-- off the fallback cases it is the weighted mean -/
+theorem no_fallback_is_weighted_mean (ms : List Int) (e r : Int → ℝ)
+    (h : 0 < ms.foldl (fun acc m => if e m ≤ 0 then acc else acc + r m) 0) :
+    wmean ms e r = .value (ms.foldl (fun acc m => if e m ≤ 0 then acc else acc + e m * r m) 0 /
+      ms.foldl (fun acc m => if e m ≤ 0 then acc else acc + r m) 0) := by
+  unfold wmean
+  simp only [C09.lit0, h, if_true]
 
-/-- a call that failed did not return a value through a slot that could take the error -/
-theorem not_returns_of_fails {r : M (ℝ × Slot)} {v : ℝ} (hf : Fails r Slot.empty) : ¬ Returns r v Slot.empty := by
-  obtain ⟨e, _, _, h⟩ := hf
-  intro hr
-  rw [hr] at h
-  injection h with h
-  have := (Prod.mk.inj h).2
-  cases this
+/-- and an error exactly when no member has an energy -/
+theorem wmean_fails_iff (ms : List Int) (e r : Int → ℝ) (hr : ∀ m ∈ ms, 0 ≤ r m) :
+    wmean ms e r = .fails ↔ ∀ m ∈ ms, e m ≤ 0 := by
+  constructor
+  · intro h m hm
+    by_contra hp
+    have hpos : 0 < e m := not_le.mp hp
+    have hc : 0 < ms.foldl (fun acc m => if e m ≤ (0.0 : ℝ) then acc else acc + (1.0 : ℝ)) (0.0 : ℝ) := by
+      have hg : ∀ (l : List Int) (a : ℝ), 0 ≤ a → (∃ x ∈ l, 0 < e x) ∨ 0 < a →
+          0 < l.foldl (fun acc m => if e m ≤ (0.0 : ℝ) then acc else acc + (1.0 : ℝ)) a := by
+        intro l
+        induction l with
+        | nil =>
+          intro a _ h
+          rcases h with ⟨x, hx, _⟩ | h
+          · exact absurd hx (List.not_mem_nil)
+          · exact h
+        | cons k ks ih =>
+          intro a ha h
+          simp only [List.foldl_cons]
+          by_cases c : e k ≤ (0.0 : ℝ)
+          · simp only [c, if_true]
+            apply ih a ha
+            rcases h with ⟨x, hx, hxp⟩ | h
+            · rcases List.mem_cons.1 hx with rfl | hx'
+              · rw [C09.lit0] at c; exact absurd hxp (not_lt.2 c)
+              · exact Or.inl ⟨x, hx', hxp⟩
+            · exact Or.inr h
+          · simp only [c, if_false]
+            apply ih _ (by rw [C09.lit1]; linarith) (Or.inr (by rw [C09.lit1]; linarith))
+      exact hg ms (0.0 : ℝ) (by norm_num) (Or.inl ⟨m, hm, hpos⟩)
+    unfold wmean at h
+    simp only [] at h
+    split_ifs at h with h1 h2
+    have e0 : (0.0 : ℝ) = 0 := C09.lit0
+    exact h2 (e0 ▸ hc)
+  · intro h
+    unfold wmean
+    simp only [foldl_skip_all ms e (fun acc m => acc + r m) h, foldl_skip_all ms e (fun acc m => acc + (1.0 : ℝ)) h,
+      lt_irrefl, if_false]
 
-/-! ## K-alpha without rates -/
+/-! ## the tables on which the unrepaired code left the text -/
 
 /-- one element with `KL1` at 2 keV, `KL2` at 4 keV and radiative rates `r` for both -/
 noncomputable def kaWit (r : ℝ) : Tables ℝ :=
@@ -235,53 +101,38 @@ noncomputable def kaWit (r : ℝ) : Tables ℝ :=
     LineEnergy_arr := fun _ j => if j = 0 then 2 else if j = 1 then 4 else 0
     RadRate_arr := fun _ j => if j = 0 ∨ j = 1 then r else 0 }
 
-theorem kaWit_cells (r : ℝ) : ∀ m ∈ Hdr.group_KA,
-    eCell (kaWit r) 1 m = (if m = -1 then 2 else if m = -2 then 4 else 0) ∧
-    rCell (kaWit r) 1 m = (if m = -1 ∨ m = -2 then r else 0) := by
-  intro m hm
-  simp only [Hdr.group_KA, List.mem_cons, List.not_mem_nil, or_false] at hm
-  rcases hm with rfl | rfl | rfl <;> simp [eCell, rCell, lineSlot, kaWit]
-
 /-- no rates: the fallback clause decides -/
 theorem kaWit_needs : needsFallback Hdr.group_KA (eCell (kaWit 0) 1) (rCell (kaWit 0) 1) = true := by
   simp [needsFallback, Hdr.group_KA, List.foldl, eCell, rCell, lineSlot, kaWit, C09.lit0, C09.lit1]
   norm_num
 
-/-- **the text on the witness**: no rates, two members with an energy — their plain mean, 3 keV -/
-theorem kaWit_text : Spec.LineEnergyText (kaWit 0) 1 Hdr.KA_LINE = .value 3 := by
-  simp [Spec.LineEnergyText, zOk, Hdr.ZMAX, wmeanText, Hdr.group_KA, List.foldl, eCell, rCell, lineSlot, kaWit, C09.lit0,
-    C09.lit1]
-  norm_num
-
-/-- **the code on the witness**: 0 and an error -/
-theorem kaWit_code : Fails (Gen.LineEnergy (kaWit 0) 1 Hdr.KA_LINE Slot.empty) Slot.empty := by
-  have m := line_energy_spec (kaWit 0) 1 Slot.empty rfl Hdr.KA_LINE
-  have hx : Spec.LineEnergy (kaWit 0) 1 Hdr.KA_LINE = .fails := by
-    unfold Spec.LineEnergy
-    simp only [show zOk 1 = true from by decide, Bool.true_eq_false, if_false, if_true]
-    exact (wmean_text_differ _ _ _ kaWit_needs).1
-  rwa [hx] at m
-
-/-- **the full statement is false**: K-alpha of an element whose K→L lines have energies but no rates -/
-theorem line_energy_fallback_full_fails : ¬ line_energy_fallback_full := fun h => by
-  have m := h (kaWit 0) 1 Hdr.KA_LINE Slot.empty rfl
-  rw [kaWit_text] at m
-  exact not_returns_of_fails kaWit_code m
-
-/-- with rates the same table is no fallback case, the hypothesis of `line_energy_fallback_partial` holds and K-alpha is at 3 keV -/
-example : needsFallback Hdr.group_KA (eCell (kaWit 1) 1) (rCell (kaWit 1) 1) = false ∧
-    Gen.LineEnergy (kaWit 1) 1 Hdr.KA_LINE Slot.empty = Except.ok ((3 : ℝ), Slot.empty) := by
-  have hn : needsFallback Hdr.group_KA (eCell (kaWit 1) 1) (rCell (kaWit 1) 1) = false := by
-    simp [needsFallback, Hdr.group_KA, List.foldl, eCell, rCell, lineSlot, kaWit, C09.lit0, C09.lit1]
-  refine ⟨hn, ?_⟩
-  have m := line_energy_fallback_partial (kaWit 1) 1 Hdr.KA_LINE Slot.empty rfl (ka_spec_eq_text _ _ hn)
-  have hx : Spec.LineEnergyText (kaWit 1) 1 Hdr.KA_LINE = .value 3 := by
-    simp [Spec.LineEnergyText, zOk, Hdr.ZMAX, wmeanText, Hdr.group_KA, List.foldl, eCell, rCell, lineSlot, kaWit, C09.lit0,
-      C09.lit1]
+theorem kaWit_text (r : ℝ) (hr : 0 ≤ r) : Spec.LineEnergy (kaWit r) 1 Hdr.KA_LINE = .value 3 := by
+  have c1 : eCell (kaWit r) 1 (-1) = 2 := by simp [eCell, lineSlot, kaWit]
+  have c2 : eCell (kaWit r) 1 (-2) = 4 := by simp [eCell, lineSlot, kaWit]
+  have c3 : eCell (kaWit r) 1 (-3) = 0 := by simp [eCell, lineSlot, kaWit]
+  have d1 : rCell (kaWit r) 1 (-1) = r := by simp [rCell, lineSlot, kaWit]
+  have d2 : rCell (kaWit r) 1 (-2) = r := by simp [rCell, lineSlot, kaWit]
+  have n2 : ¬ ((2 : ℝ) ≤ 0) := by norm_num
+  have n4 : ¬ ((4 : ℝ) ≤ 0) := by norm_num
+  unfold Spec.LineEnergy wmean
+  simp only [show zOk 1 = true from by decide, Bool.true_eq_false, if_false, if_true, Hdr.group_KA, List.foldl, c1, c2, c3, d1, d2,
+    C09.lit0, C09.lit1, n2, n4, le_refl]
+  rcases hr.lt_or_eq with h | h
+  · have h2 : 0 < 0 + r + r := by linarith
+    rw [if_pos h2]
+    congr 1
+    have hr2 : 0 + r + r ≠ 0 := h2.ne'
+    field_simp
+    ring
+  · subst h
     norm_num
-  rwa [hx] at m
 
-/-! ## L-alpha with a rate on a member that has no energy -/
+/-- **K-alpha of an element whose K→L lines have energies (2 and 4 keV) but no rates: the plain mean, 3 keV** (the unrepaired code
+returned 0 with an error) — and the same 3 keV with equal rates -/
+theorem kaWit_result (r : ℝ) (hr : 0 ≤ r) :
+    Gen.LineEnergy (kaWit r) 1 Hdr.KA_LINE Slot.empty = Except.ok ((3 : ℝ), Slot.empty) := by
+  have m := line_energy_spec (kaWit r) 1 Slot.empty rfl Hdr.KA_LINE
+  rwa [kaWit_text r hr] at m
 
 /-- one element with `L3M4` (slot 88) at 2 keV and rate 1, and `L3M5` (slot 89) with rate 1 but no energy -/
 noncomputable def laWit : Tables ℝ :=
@@ -300,46 +151,22 @@ theorem laWit_r1 : valOr0 (singleRate laWit 1 (-89)) = 1 := by
 theorem laWit_r2 : valOr0 (singleRate laWit 1 (-90)) = 1 := by
   simp [singleRate, zOk, Hdr.ZMAX, isLineMacro, Hdr.LINENUM, rCell, lineSlot, laWit, valOr0, C09.lit0]
 
-/-- the code's two-member mean on the witness: (2·1 + 0·1) / (1 + 1) = 1 keV -/
-theorem laWit_code_spec : Spec.LineEnergy laWit 1 Hdr.LA_LINE = .value 1 := by
+theorem laWit_text : Spec.LineEnergy laWit 1 Hdr.LA_LINE = .value 2 := by
   unfold Spec.LineEnergy
   simp only [show zOk 1 = true from by decide, Hdr.KA_LINE, Hdr.KB_LINE, Hdr.LA_LINE, Hdr.group_LA, List.getD_cons_zero,
     List.getD_cons_succ, Bool.true_eq_false, show ¬ ((2 : Int) = 0) by omega, show ¬ ((2 : Int) = 1) by omega, if_false, if_true]
-  unfold composed
-  simp only [laWit_e1, laWit_e2, laWit_r1, laWit_r2, C09.lit0, C09.lit1]
-  norm_num
-
-/-- the text on the witness: the only member with an energy is at 2 keV -/
-theorem laWit_text : Spec.LineEnergyText laWit 1 Hdr.LA_LINE = .value 2 := by
-  unfold Spec.LineEnergyText
-  simp only [show zOk 1 = true from by decide, Hdr.KA_LINE, Hdr.KB_LINE, Hdr.LA_LINE, Hdr.group_LA, List.getD_cons_zero,
-    List.getD_cons_succ, Bool.true_eq_false, show ¬ ((2 : Int) = 0) by omega, show ¬ ((2 : Int) = 1) by omega, if_false, if_true]
-  unfold composedText wmeanText
+  unfold composed wmean
   simp only [List.foldl, laWit_e1, laWit_e2, laWit_r1, laWit_r2, C09.lit0, C09.lit1]
   norm_num
 
-/-- **the code returns 1 keV for L-alpha on the witness** -/
-theorem laWit_code : Gen.LineEnergy laWit 1 Hdr.LA_LINE Slot.empty = Except.ok ((1 : ℝ), Slot.empty) := by
-  have m := line_energy_spec laWit 1 Slot.empty rfl Hdr.LA_LINE
-  rwa [laWit_code_spec] at m
-
-/-- the same full statement refuted a second way: the rate of a member without an energy stays in the denominator -/
-theorem line_energy_fallback_composed_fails : ¬ line_energy_fallback_full := fun h => by
-  have m := h laWit 1 Hdr.LA_LINE Slot.empty rfl
-  rw [laWit_text, laWit_code] at m
-  have : (1 : ℝ) = 2 := by
-    have := m
-    unfold Meets Returns at this
-    injection this with this
-    exact (Prod.mk.inj this).1
-  norm_num at this
-
-/-- **"hence lies between the smallest and largest member energy" fails for the unrepaired two-member groups**: on the witness
-L-alpha is returned at 1 keV, its members are `L3M4`, `L3M5`, the only member energy is 2 keV -/
-theorem la_below_members :
-    Gen.LineEnergy laWit 1 Hdr.LA_LINE Slot.empty = Except.ok ((1 : ℝ), Slot.empty) ∧
-    groupMembers Hdr.LA_LINE = [-89, -90] ∧ memberEnergy laWit 1 (-89) = 2 ∧ memberEnergy laWit 1 (-90) = 0 ∧
+/-- **L-alpha with a rate on a member without an energy: 2 keV, the energy of the only member that has one** (the unrepaired code
+returned 1 keV, below every member energy) — in `groupRange`, as `line_energy_in_range` says -/
+theorem laWit_result :
+    Gen.LineEnergy laWit 1 Hdr.LA_LINE Slot.empty = Except.ok ((2 : ℝ), Slot.empty) ∧
     groupRange laWit 1 Hdr.LA_LINE = some (2, 2) := by
+  have m := line_energy_spec laWit 1 Slot.empty rfl Hdr.LA_LINE
+  rw [laWit_text] at m
+  refine ⟨m, ?_⟩
   have e1 : memberEnergy laWit 1 (-89) = 2 := by
     unfold memberEnergy
     rw [specLineEnergy_plain laWit 1 (-89) (plain_dec _ (by decide))]; exact laWit_e1
@@ -347,20 +174,31 @@ theorem la_below_members :
     unfold memberEnergy
     rw [specLineEnergy_plain laWit 1 (-90) (plain_dec _ (by decide))]; exact laWit_e2
   have gm : groupMembers Hdr.LA_LINE = [-89, -90] := by decide
-  refine ⟨laWit_code, gm, e1, e2, ?_⟩
   unfold groupRange posRange
   rw [gm]
   simp only [List.map, List.foldl, rangeStep, e1, e2, C09.lit0]
   norm_num
 
-/-- the executable condition flags the witness: `L3M5` carries a rate without an energy while `L3M4` has an energy -/
-example : rateWithoutEnergyAt laWit 1 (-89) (-90) = true ∧ (Hdr.LA_LINE, (-89 : Int), (-90 : Int)) ∈ composedGroups := by
-  refine ⟨?_, by decide⟩
-  unfold rateWithoutEnergyAt
-  simp only [laWit_e1, laWit_e2, laWit_r1, laWit_r2, C09.lit0]
-  norm_num
+/-- the hypotheses of `line_energy_in_range` on that table (L-alpha needs no data hypothesis) -/
+example : ∃ lo hi : ℝ, groupRange laWit 1 Hdr.LA_LINE = some (lo, hi) ∧ lo ≤ 2 ∧ (2 : ℝ) ≤ hi :=
+  let ⟨lo, hi, h1, h2, h3, _⟩ := line_energy_in_range laWit 1 Slot.empty rfl Hdr.LA_LINE (by decide) (by decide)
+    (fun h => absurd h (by decide)) laWit_result.1 (by norm_num)
+  ⟨lo, hi, h1, h2, h3⟩
 
-/-! ## L-beta without weights -/
+/-- the hypotheses of `line_energy_in_range` for K-alpha on `kaWit 1`: non-negative rates (`groupInputsOkAt`), the value 3 keV lies
+between the member energies 2 and 4 keV -/
+example : groupInputsOkAt (kaWit 1) 1 Hdr.KA_LINE = true ∧
+    ∃ lo hi : ℝ, groupRange (kaWit 1) 1 Hdr.KA_LINE = some (lo, hi) ∧ lo ≤ 3 ∧ (3 : ℝ) ≤ hi := by
+  have hd : groupInputsOkAt (kaWit 1) 1 Hdr.KA_LINE = true := by
+    unfold groupInputsOkAt ratesNonnegAt
+    simp only [Hdr.KA_LINE, true_or, if_true, List.all_eq_true, decide_eq_true_eq]
+    intro j _
+    show (0.0 : ℝ) ≤ if j = 0 ∨ j = 1 then 1 else 0
+    split_ifs <;> norm_num
+  refine ⟨hd, ?_⟩
+  obtain ⟨lo, hi, h1, h2, h3, _⟩ := line_energy_in_range (kaWit 1) 1 Slot.empty rfl Hdr.KA_LINE (by decide) hd
+    (fun h => absurd h (by decide)) (kaWit_result 1 (by norm_num)) (by norm_num)
+  exact ⟨lo, hi, h1, h2, h3⟩
 
 /-- the L-beta witness of Props/C10b (`LB3` at 2 keV, `LB4` at 4 keV) without radiative rates: no member has a cross section -/
 noncomputable def lbWitN : Tables ℝ := { lbWit 4 with RadRate_arr := fun _ _ => 0 }
@@ -373,136 +211,54 @@ theorem lbWitN_order : edgeOrderB lbWitN 1 = true := by
   rw [C09.edgeOrder_iff] at h ⊢
   exact h
 
-theorem lbWitN_rate (m : Int) : singleRate lbWitN 1 m = .fails := by
-  unfold singleRate
-  rw [if_neg]
-  intro h
-  have := h.2.2
-  simp [rCell, lbWitN, C09.lit0] at this
-
-theorem lbWitN_weight : ∀ m ∈ lbEnergyMembers, lbWeight lbWitN 1 m = 0 := by
-  have sh : ∀ k, k < 13 → lineShell (lbEnergyMembers.getD k 0) = some (Static.lb_pairs_shell k) := by decide
-  intro m hm
-  obtain ⟨k, hk, rfl⟩ : ∃ k, k < 13 ∧ m = lbEnergyMembers.getD k 0 := by
-    simp only [lbEnergyMembers, List.mem_cons, List.not_mem_nil, or_false] at hm
-    rcases hm with h | h | h | h | h | h | h | h | h | h | h | h | h
-    exacts [⟨0, by omega, h⟩, ⟨1, by omega, h⟩, ⟨2, by omega, h⟩, ⟨3, by omega, h⟩, ⟨4, by omega, h⟩, ⟨5, by omega, h⟩,
-      ⟨6, by omega, h⟩, ⟨7, by omega, h⟩, ⟨8, by omega, h⟩, ⟨9, by omega, h⟩, ⟨10, by omega, h⟩, ⟨11, by omega, h⟩,
-      ⟨12, by omega, h⟩]
-  have rng : ∀ k, k < 13 → -383 ≤ lbEnergyMembers.getD k 0 ∧ lbEnergyMembers.getD k 0 ≤ -1 := by decide
-  have r := rng k hk
-  rw [lbWeight_plain lbWitN 1 _ _ (sh k hk) (by omega), lbWitN_rate]
-  simp [timesRate, valOr0, C09.lit0]
-
 theorem lbWitN_energy33 : lbEnergy lbWitN 1 (-34) = 2 := by
   unfold lbEnergy
   rw [specLineEnergy_plain lbWitN 1 (-34) (by unfold Plain; omega)]
   simp [singleEnergy, firstMember, Hdr.KO_LINE, Hdr.KP_LINE, zOk, Hdr.ZMAX, isLineMacro, Hdr.LINENUM, eCell, lineSlot, lbWitN,
     lbWit, valOr0, C09.lit0]
 
-/-- on the witness the weights of the members with an energy sum to 0, and `LB3` has an energy: a fallback case -/
-theorem lbWitN_needs : needsFallback lbEnergyMembers (lbEnergy lbWitN 1) (lbWeight lbWitN 1) = true := by
-  unfold needsFallback
-  rw [Bool.and_eq_true]
-  constructor
-  · have : lbEnergyMembers.foldl (fun acc m => if lbEnergy lbWitN 1 m ≤ (0.0 : ℝ) then acc else acc + lbWeight lbWitN 1 m) (0.0 : ℝ)
-        = (0.0 : ℝ) := by
-      have hc : ∀ (ms : List Int), (∀ m ∈ ms, lbWeight lbWitN 1 m = 0) → ∀ a : ℝ,
-          ms.foldl (fun acc m => if lbEnergy lbWitN 1 m ≤ (0.0 : ℝ) then acc else acc + lbWeight lbWitN 1 m) a = a := by
-        intro ms
-        induction ms with
-        | nil => intro _ a; rfl
-        | cons m ms ih =>
-          intro hms a
-          simp only [List.foldl_cons, hms m (List.mem_cons_self ..), add_zero, ite_self]
-          exact ih (fun x hx => hms x (List.mem_cons_of_mem _ hx)) a
-      exact hc _ lbWitN_weight _
-    rw [this]
-    simp
-  · apply decide_eq_true
-    have hg : ∀ (ms : List Int) (a : ℝ), 0 ≤ a → (∃ m ∈ ms, 0 < lbEnergy lbWitN 1 m) ∨ 0 < a →
-        0 < ms.foldl (fun acc m => if lbEnergy lbWitN 1 m ≤ (0.0 : ℝ) then acc else acc + (1.0 : ℝ)) a := by
-      intro ms
-      induction ms with
-      | nil =>
-        intro a _ h
-        rcases h with ⟨m, hm, _⟩ | h
-        · exact absurd hm (List.not_mem_nil)
-        · exact h
-      | cons k ks ih =>
-        intro a ha h
-        simp only [List.foldl_cons]
-        by_cases c : lbEnergy lbWitN 1 k ≤ (0.0 : ℝ)
-        · simp only [c, if_true]
-          apply ih a ha
-          rcases h with ⟨m, hm, hp⟩ | h
-          · rcases List.mem_cons.1 hm with rfl | hm'
-            · rw [C09.lit0] at c; exact absurd hp (not_lt.2 c)
-            · exact Or.inl ⟨m, hm', hp⟩
-          · exact Or.inr h
-        · simp only [c, if_false]
-          apply ih _ (by rw [C09.lit1]; linarith) (Or.inr (by rw [C09.lit1]; linarith))
-    have h0 := hg lbEnergyMembers (0.0 : ℝ) (by norm_num) (Or.inl ⟨-34, by decide, by rw [lbWitN_energy33]; norm_num⟩)
-    have e0 : (0.0 : ℝ) = 0 := C09.lit0
-    exact e0 ▸ h0
-
-/-- the text's member energies are the code's for the single-line members, and `composedText` for `LB5 = L3O45` -/
-theorem lbText_energy_plain (T : Tables ℝ) (Z m : Int) (hp : Plain m) :
-    valOr0 (Spec.LineEnergyText T Z m) = lbEnergy T Z m := by
-  unfold lbEnergy
-  rw [specLineEnergy_plain T Z m hp]
-  have hf := findDoublet_plain m hp
-  obtain ⟨p0, p1, p2, p3, _⟩ := hp
-  unfold Spec.LineEnergyText
-  simp only [Hdr.KA_LINE, Hdr.KB_LINE, Hdr.LA_LINE, Hdr.LB_LINE, p0, p1, p2, p3, if_false, hf]
-  by_cases hz : zOk Z = true
-  · simp [hz]
-  · have hz' : zOk Z = false := by simpa using hz
-    simp [hz', singleEnergy]
-
-/-- **L-beta on the witness**: the code reports an error, the text has a value -/
-theorem line_energy_lb_fallback_full_fails : ¬ line_energy_lb_fallback_full := fun h => by
-  have m := h lbWitN 1 Slot.empty rfl lbWitN_shape lbWitN_order
-  have mc := line_energy_lb_spec lbWitN 1 Slot.empty rfl lbWitN_shape lbWitN_order
-  have hx : Spec.LineEnergyLB lbWitN 1 = .fails := by
+/-- **L-beta of an element whose member lines have energies but no cross sections: a value** (the plain mean; the unrepaired code
+returned 0 with an error) -/
+theorem lbWitN_result : ∃ v : ℝ, Gen.LineEnergy lbWitN 1 Hdr.LB_LINE Slot.empty = Except.ok (v, Slot.empty) := by
+  have m := line_energy_lb_spec lbWitN 1 Slot.empty rfl lbWitN_shape lbWitN_order
+  have hne : Spec.LineEnergyLB lbWitN 1 ≠ .fails := by
     unfold Spec.LineEnergyLB
     simp only [show zOk 1 = true from by decide, Bool.true_eq_false, if_false]
-    exact (wmean_text_differ _ _ _ lbWitN_needs).1
-  rw [hx] at mc
-  -- the text: a value, because `LB3` has an energy
-  have ht : ∃ v, Spec.LineEnergyLBText lbWitN 1 = .value v := by
-    unfold Spec.LineEnergyLBText
-    simp only [show zOk 1 = true from by decide, Bool.true_eq_false, if_false]
-    -- on the witness every member energy of the text is the code's: the doublet member `L3O45` has no energy in either
-    have he : ∀ m ∈ lbEnergyMembers, valOr0 (Spec.LineEnergyText lbWitN 1 m) = lbEnergy lbWitN 1 m ∧
-        lbWeight lbWitN 1 m = lbWeight lbWitN 1 m := by
-      intro m hm
-      refine ⟨?_, rfl⟩
-      by_cases h5 : m = -102
-      · subst h5
-        have c1 : Spec.LineEnergyText lbWitN 1 (-102) = composedText lbWitN 1 (-101) (-103) := by
-          unfold Spec.LineEnergyText
-          simp [Hdr.KA_LINE, Hdr.KB_LINE, Hdr.LA_LINE, Hdr.LB_LINE, findDoublet, Hdr.doublets, List.find?, zOk, Hdr.ZMAX]
-        have c2 : lbEnergy lbWitN 1 (-102) = valOr0 (composed lbWitN 1 (-101) (-103)) := by
-          unfold lbEnergy; rw [specLineEnergy_L3O45]; simp [zOk, Hdr.ZMAX]
-        rw [c1, c2, composed_eq_text lbWitN 1 (-101) (-103) (by
-          unfold rateWithoutEnergyAt
-          simp [lbWitN_rate, valOr0, C09.lit0])]
-      · have hp : Plain m := by
+    intro hf
+    have hall : ∀ m ∈ lbEnergyMembers, lbEnergy lbWitN 1 m ≤ 0 := by
+      -- `wmean_fails_iff` needs non-negative weights: without rates every weight is 0
+      have hw : ∀ m ∈ lbEnergyMembers, 0 ≤ lbWeight lbWitN 1 m := by
+        have sh : ∀ k, k < 13 → lineShell (lbEnergyMembers.getD k 0) = some (Static.lb_pairs_shell k) := by decide
+        intro m hm
+        obtain ⟨k, hk, rfl⟩ : ∃ k, k < 13 ∧ m = lbEnergyMembers.getD k 0 := by
           simp only [lbEnergyMembers, List.mem_cons, List.not_mem_nil, or_false] at hm
-          unfold Plain
-          simp only [Hdr.LB1_LINE, Hdr.LB2_LINE, Hdr.LB3_LINE, Hdr.LB4_LINE, Hdr.LB5_LINE, Hdr.LB6_LINE, Hdr.LB7_LINE,
-            Hdr.LB9_LINE, Hdr.LB10_LINE, Hdr.LB15_LINE, Hdr.LB17_LINE, Hdr.L3N6_LINE, Hdr.L3N7_LINE] at hm
-          omega
-        exact lbText_energy_plain lbWitN 1 m hp
-    have hcongr : wmeanText lbEnergyMembers (fun m => valOr0 (Spec.LineEnergyText lbWitN 1 m)) (lbWeight lbWitN 1) =
-        wmeanText lbEnergyMembers (lbEnergy lbWitN 1) (lbWeight lbWitN 1) :=
-      wmeanText_congr _ _ _ _ _ he
-    rw [hcongr]
-    exact (wmean_text_differ _ _ _ lbWitN_needs).2
-  obtain ⟨v, hv⟩ := ht
-  rw [hv] at m
-  exact not_returns_of_fails mc m
+          rcases hm with h | h | h | h | h | h | h | h | h | h | h | h | h
+          exacts [⟨0, by omega, h⟩, ⟨1, by omega, h⟩, ⟨2, by omega, h⟩, ⟨3, by omega, h⟩, ⟨4, by omega, h⟩, ⟨5, by omega, h⟩,
+            ⟨6, by omega, h⟩, ⟨7, by omega, h⟩, ⟨8, by omega, h⟩, ⟨9, by omega, h⟩, ⟨10, by omega, h⟩, ⟨11, by omega, h⟩,
+            ⟨12, by omega, h⟩]
+        have rng : ∀ k, k < 13 → -383 ≤ lbEnergyMembers.getD k 0 ∧ lbEnergyMembers.getD k 0 ≤ -1 := by decide
+        have r := rng k hk
+        have hrate : singleRate lbWitN 1 (lbEnergyMembers.getD k 0) = .fails := by
+          unfold singleRate
+          rw [if_neg]
+          intro h
+          have := h.2.2
+          simp [rCell, lbWitN, C09.lit0] at this
+        rw [lbWeight_plain lbWitN 1 _ _ (sh k hk) (by omega), hrate]
+        simp [timesRate, valOr0, C09.lit0]
+      exact (wmean_fails_iff _ _ _ hw).1 hf
+    have := hall (-34) (by decide)
+    rw [lbWitN_energy33] at this
+    norm_num at this
+  cases hx : Spec.LineEnergyLB lbWitN 1 with
+  | value v => rw [hx] at m; exact ⟨v, m⟩
+  | fails => exact absurd hx hne
+  | any =>
+    unfold Spec.LineEnergyLB at hx
+    simp only [show zOk 1 = true from by decide, Bool.true_eq_false, if_false] at hx
+    unfold wmean at hx
+    simp only [] at hx
+    split_ifs at hx
 
 end C10
 end Xrl
